@@ -35,9 +35,10 @@ pub struct WordCfg {
 pub fn word_cfgs(rng: &mut Rng) -> Vec<WordCfg> {
   // (custom words may be any text without white space, also non-ASCII; the first character stays ASCII so that the
   // same-length "neutralised" variant of a directive can be formed)
-  // … and punctuation: a word is whatever stands between white space
-  let file_customs = ["my-ignore-file", "x-ignore", "deno-lint-ignore-file", "fichier-ignoré", "@lint-ignore-file", "lint:ignore-file", "nolint!", "e\u{301}x.ignore~file"];
-  let line_customs = ["deno-lint-ignore", "lint-skip", "skip-file", "x-игнор", "@lint-ignore", "lint:ignore(next)", "nolint?", "l\u{301}nt/ignore"];
+  // … and punctuation: a word is whatever stands between white space — also the reason marker `--` and the code
+  // separator `,`, which mean nothing inside the word (seed C17-7)
+  let file_customs = ["my-ignore-file", "x-ignore", "deno-lint-ignore-file", "fichier-ignoré", "@lint-ignore-file", "lint:ignore-file", "nolint!", "e\u{301}x.ignore~file", "mylint--ignore-file", "lint,off-file", "a--b,c"];
+  let line_customs = ["deno-lint-ignore", "lint-skip", "skip-file", "x-игнор", "@lint-ignore", "lint:ignore(next)", "nolint?", "l\u{301}nt/ignore", "mylint--ignore", "lint,off", "--", "x,--y"];
   let cf = file_customs[rng.below(file_customs.len())];
   let cl = line_customs[rng.below(line_customs.len())];
   let v = vec![
@@ -297,6 +298,10 @@ pub fn run_case(out: &mut Out, case_no: usize, wc: &WordCfg, df: &DirFile, codes
   for w in final_ds.windows(2) {
     if (w[0].start, &w[0].code) > (w[1].start, &w[1].code) {
       out.found("C03", "order", &key, json!({"meta": meta, "a": w[0].json(), "b": w[1].json()}));
+      // "subject to the same … ordering as built-in ones": a misplaced pair with an external linter taking part is C16's too
+      if meta.get("external").map(|e| !e.is_null() && e.as_bool() != Some(false)).unwrap_or(false) {
+        out.found("C16", "external-diagnostics-not-in-position-then-code-order", &key, json!({"meta": meta, "a": w[0].json(), "b": w[1].json()}));
+      }
     }
   }
   // the directives the text *means* (generator's view, by the property's own definition)
